@@ -103,6 +103,18 @@ def check_merge(ctx: Ctx):
             return True  # <dict>.get(ref): the recorded score (None only while the reference is unmatched)
         return isinstance(e, ast.Subscript) and isinstance(e.slice, ast.Name) and e.slice.id == ref and isinstance(e.value, ast.Name)
 
+    # the matcher itself on bounded scenarios, replayed against the specification (c03.merge_run)
+    from . import c03 as _c03m
+    from ..absval import RaiseSignal
+
+    try:
+        mv_, mw_, mruns = _c03m.merge_run(ctx, cls, f)
+    except (Undecided, AnchorMissing, RaiseSignal) as e:
+        mv_, mw_, mruns = None, {"why": f"{type(e).__name__}: {e}"}, 0
+    if mv_ is not None:
+        ctx.decide("R14.7", f, f.node, f"{f.qual}:merge-run", "on every ordering of four candidates (three predictions on one reference, one also on another), every outcome of the threshold tests and score comparisons and both directions, the label map is the specified one: first match by threshold, merge iff the merged prediction scores strictly better than the recorded score", mv_, mw_ or {"runs": mruns})
+    run_ok = mv_ is True
+
     kinds: dict[int, str] = {}
     for c in calls:
         atoms = MatcherAtoms(ctx, f, pred, ref, score)
@@ -159,7 +171,7 @@ def check_merge(ctx: Ctx):
                 ctx.decide("R14.2", f, c, construct + ":complete", "an unassigned prediction meeting the threshold on an unmatched reference is matched", v, {"row": w, "path_condition": pc_txt} if w else None)
             else:
                 ctx.decide("R14.2", f, c, construct, "first match of a reference is guarded by the score/threshold comparison", None if form.opaque else False, {"path_condition": pc_txt, "unmodelled_conditions": sorted(form.opaque.values())[:4]})
-            _check_score_update(ctx, prog, f, c, construct, ref, {score})
+            _check_score_update(ctx, prog, f, c, construct, ref, {score}, run_ok)
         else:
             if dec_key and new_key:
                 key, flip = new_key
@@ -187,18 +199,20 @@ def check_merge(ctx: Ctx):
                 v, w = implication(form, prem, strict2)
                 v, wit = dec(v, w)
                 ctx.decide("R14.3", f, c, construct, "a further prediction is merged only if the combined score is strictly better than the recorded score in the metric's direction", v, wit)
-            else:
-                ctx.decide("R14.3", f, c, construct, "merge is guarded by a comparison of the combined score with the recorded score of the reference", None if form.opaque else False, {"path_condition": pc_txt, "combined_score_vars": sorted(new_vars), "unmodelled_conditions": sorted(form.opaque.values())[:4]})
-            _check_score_update(ctx, prog, f, c, construct, ref, new_vars)
+            elif not run_ok:
+                # the recorded score is not kept in a form this rule reads (a local dict keyed by the reference):
+                # decided by the run of the matcher when that is available
+                ctx.decide("R14.3", f, c, construct, "merge is guarded by a comparison of the combined score with the recorded score of the reference", None if (form.opaque or mv_ is False) else False, {"path_condition": pc_txt, "combined_score_vars": sorted(new_vars), "unmodelled_conditions": sorted(form.opaque.values())[:4]})
+            _check_score_update(ctx, prog, f, c, construct, ref, new_vars, run_ok)
     bad = [n for n in ast.walk(loop) if isinstance(n, (ast.Break, ast.Return, ast.Raise))]
     ctx.decide("R14.1", f, loop, f"{f.qual}:loop", "candidate loop has no break/return/raise", not bad)
     if ncs is None:
         ctx.undecided("R14.5", f, f.node, "new_combination_score", "combined-score helper not found")
     else:
-        _check_combination(ctx, cls, f, ncs, ref, pred, kinds, calls)
+        _check_combination(ctx, cls, f, ncs, ref, pred, kinds, calls, run_ok)
 
 
-def _check_score_update(ctx, prog, f, call, construct, ref, score_vars: set[str]):
+def _check_score_update(ctx, prog, f, call, construct, ref, score_vars: set[str], run_ok: bool = False):
     """R14.4: in the block of the accepted assignment, <dict>[ref] = <justifying score>."""
     pm = prog.parents(f)
     st = call
@@ -231,8 +245,11 @@ def _check_score_update(ctx, prog, f, call, construct, ref, score_vars: set[str]
     in_read = [s for s in cands if s.targets[0].value.id in read_dicts]
     found = (scored or in_read or cands or [None])[-1]
     if found is None:
-        ctx.violated("R14.4", f, call, construct, "accepted assignment does not record the score of the reference in the same branch", None)
+        if not run_ok:  # (a score kept in another form than <dict>[ref] = <score> is decided by the run, R14.7)
+            ctx.violated("R14.4", f, call, construct, "accepted assignment does not record the score of the reference in the same branch", None)
         return
+    if run_ok and not isinstance(found.value, (ast.Name, ast.Constant, ast.Subscript)):
+        return  # a record built from the score: what it holds is decided by the run
     ok = isinstance(found.value, ast.Name) and found.value.id in score_vars
     ctx.decide("R14.4", f, found, construct, f"recorded score of the reference is the score that justified the assignment ({'/'.join(sorted(score_vars))})", True if ok else False, {"assigned": norm(found.value)})
 
@@ -339,7 +356,7 @@ def _mirror_index(prog, f: Func, name: str, ref: str, pred: str, kinds: dict, ca
     return None
 
 
-def _check_combination(ctx, cls, f, ncs: Func, ref, pred, kinds=None, add_calls=None):
+def _check_combination(ctx, cls, f, ncs: Func, ref, pred, kinds=None, add_calls=None, run_ok=False):
     prog = ctx.prog
     # call site in _match_instances
     sites = calls_resolving_to(prog, f, ncs)
@@ -399,6 +416,8 @@ def _check_combination(ctx, cls, f, ncs: Func, ref, pred, kinds=None, add_calls=
                     if mutated:
                         ctx.violated("R14.5", f, c, f"{f.qual}->new_combination_score:{pn}", "already-matched predictions handed to the combined score are all predictions mapped to the reference", {"arg": norm(src), "reason": f"the helper modifies its parameter {pn} in place (line {mutated[0].lineno}), so the caller's {src.value.id}[{ref}] also receives candidates whose merge is rejected"})
                         continue
+                if not ok and run_ok:
+                    continue  # kept in a form this rule does not read: the run names every merged score after the predictions actually handed over (R14.7)
                 ctx.decide("R14.5", f, c, f"{f.qual}->new_combination_score:{pn}", "already-matched predictions are those mapped to the loop's reference label", True if ok else None, {"arg": norm(src)})
     # body of new_combination_score
     g = ncs
